@@ -33,7 +33,22 @@ func concOps(g *gen, s int, n int) []*spb.AFTOperation {
 	var ops []*spb.AFTOperation
 	id := func() uint64 { return uint64(10000*(s+1)) + g.id() }
 	for len(ops) < n {
-		switch g.pick(5) {
+		switch g.pick(6) {
+		case 5: // a chain across instances: next-hop and group in the LAST instance, the prefix in the FIRST one
+			if len(g.nis) < 3 {
+				continue
+			}
+			first, last := "DEFAULT", g.nis[len(g.nis)-1]
+			nh1, grp := base+uint64(1+g.pick(3)), base+uint64(1+g.pick(2))
+			c := []*spb.AFTOperation{
+				{Id: id(), NetworkInstance: last, Op: spb.AFTOperation_ADD, Entry: &spb.AFTOperation_NextHop{NextHop: g.nhPayload(nh1)}},
+				{Id: id(), NetworkInstance: last, Op: spb.AFTOperation_ADD, Entry: &spb.AFTOperation_NextHopGroup{NextHopGroup: &aftpb.Afts_NextHopGroupKey{Id: grp, NextHopGroup: &aftpb.Afts_NextHopGroup{NextHop: []*aftpb.Afts_NextHopGroup_NextHopKey{{Index: nh1, NextHop: &aftpb.Afts_NextHopGroup_NextHop{Weight: u(g.mark())}}}}}}},
+				{Id: id(), NetworkInstance: first, Op: spb.AFTOperation_ADD, Entry: &spb.AFTOperation_Ipv4{Ipv4: &aftpb.Afts_Ipv4EntryKey{Prefix: fmt.Sprintf("10.%d.%d.0/24", s+1, 100+g.pick(3)), Ipv4Entry: &aftpb.Afts_Ipv4Entry{NextHopGroup: u(grp), NextHopGroupNetworkInstance: sv(last), EntryMetadata: g.meta()}}}},
+			}
+			if g.chance(1, 2) {
+				g.r.Shuffle(len(c), func(i, j int) { c[i], c[j] = c[j], c[i] })
+			}
+			ops = append(ops, c...)
 		case 0, 1: // a chain in arrival order chosen at random
 			nh1, nh2, grp := base+uint64(1+g.pick(3)), base+uint64(1+g.pick(3)), base+uint64(1+g.pick(2))
 			c := []*spb.AFTOperation{
@@ -61,6 +76,9 @@ func concOps(g *gen, s int, n int) []*spb.AFTOperation {
 func genConc(seed uint64, prop string) *Scenario {
 	r := rand.New(rand.NewPCG(seed, 0x636f6e63))
 	cfg := ScenCfg{Default: "DEFAULT", VRFs: []string{"VRF-A"}, FwdRefs: true}
+	if r.IntN(2) == 0 {
+		cfg.VRFs = []string{"VRF-A", "VRF-B"} // three instances: a flush of everything passes through a middle one
+	}
 	cfg.Policy = []string{"fine", "pct", "pct", "coarse"}[r.IntN(4)]
 	cfg.PCTDepth = 1 + r.IntN(4)
 	cfg.Window = []int{0, 0, 1, 4}[r.IntN(4)]
@@ -501,6 +519,21 @@ func runConc(e *env) {
 			}
 		}
 	})
+	partialFlush := false
+	for _, st := range flushers {
+		if !st.Flush.All {
+			partialFlush = true
+		}
+	}
+	if !partialFlush {
+		// Whole-RIB state changed only through Modify and flushes of EVERYTHING: whatever the overlap, an
+		// operation is acknowledged against the state before or after a flush, never against half of one,
+		// so no installed entry may reference something that is not installed.
+		if d := e.implDangling(); len(d) > 0 {
+			e.report("C11", "dangling-after-concurrent-flush", "installed entry references a missing entry although only Modify and full flushes ran", fmt.Sprint(d), false)
+		}
+		e.probe("closure of references checked at quiescence")
+	}
 	switch {
 	case flushRan:
 		e.probe("a Flush overlapped the modifications")
